@@ -152,8 +152,17 @@ type irInput struct {
 // enum flavours + the specials), placed as the type of object Root and as a
 // required / optional field of struct Root.
 func irSpace(thorough bool) []irInput {
-	leaves := append([]irgen.Term{}, irgen.DefaultLeaves()...)
-	for _, r := range []string{"p.Missing", "q.Missing", "p.Root", "p.Cyc1", "p.Self", "p.Count", "p.AliasS", "p.Rec", "p.Dangling", "p.T"} {
+	// ordinary leaves (the quick tier keeps one representative per kind: the
+	// ordinary terms are C06's subject; this part is about the abnormal ones)
+	leaves := []irgen.Term{irgen.S("string"), irgen.S("int64"), irgen.S("any"), irgen.Const("str"), irgen.Enum("str"), irgen.Ref("p.S"), irgen.Ref("p.E"), irgen.Ref("p.K"), irgen.ConstRef("p.E"), irgen.Slot()}
+	if thorough {
+		leaves = append([]irgen.Term{}, irgen.DefaultLeaves()...)
+	}
+	refs := []string{"p.Missing", "q.Missing", "p.Root", "p.Cyc1", "p.Count", "p.AliasS", "p.Rec", "p.Dangling", "p.T"}
+	if thorough {
+		refs = append(refs, "p.Self")
+	}
+	for _, r := range refs {
 		leaves = append(leaves, irgen.Ref(r))
 	}
 	for _, e := range []string{"numname", "odd", "space", "plus", "noname"} {
@@ -163,16 +172,42 @@ func irSpace(thorough bool) []irInput {
 	for _, n := range specialNames() {
 		leaves = append(leaves, special(n))
 	}
-	cfg := irgen.Config{Depth: 2, Leaves: leaves, DisjWith: []irgen.Term{irgen.S("string"), irgen.Ref("p.S"), irgen.Ref("p.T"), irgen.Ref("p.Count"), irgen.Ref("p.Missing"), irgen.Ref("p.Cyc1"), irgen.Null()}}
+	cfg := irgen.Config{Depth: 2, Leaves: leaves, DisjWith: []irgen.Term{irgen.S("string"), irgen.Ref("p.S"), irgen.Ref("p.Count"), irgen.Ref("p.Missing")}}
 	if thorough {
+		cfg.DisjWith = []irgen.Term{irgen.S("string"), irgen.Ref("p.S"), irgen.Ref("p.T"), irgen.Ref("p.Count"), irgen.Ref("p.Missing"), irgen.Ref("p.Cyc1"), irgen.Null()}
 		cfg.Depth = 3
 		cfg.InnerLeaves = []irgen.Term{irgen.S("string"), irgen.Ref("p.S"), irgen.Ref("p.Missing"), irgen.Ref("p.Cyc1"), irgen.Ref("p.Count"), irgen.Enum("str"), special("emptyenum"), special("emptystruct"), special("emptydisj")}
 		cfg.Wrappers = []string{"array", "map", "struct-req", "struct-opt", "nullable", "disj-null", "disj", "inter"}
 	}
 	terms := irgen.Types(cfg)
 	var out []irInput
+	cyc := map[string]irgen.ObjSpec{}
+	for _, o := range cycleSupport() {
+		cyc[o.Name] = o
+	}
+	var need func(t irgen.Term, into map[string]bool)
+	need = func(t irgen.Term, into map[string]bool) {
+		if (t.K == "ref" || t.K == "constref") && strings.HasPrefix(t.A, "p.") {
+			n := strings.TrimPrefix(t.A, "p.")
+			if o, ok := cyc[n]; ok && !into[n] {
+				into[n] = true
+				need(o.T, into)
+			}
+		}
+		for _, s := range t.Sub {
+			need(s, into)
+		}
+	}
 	add := func(place string, spec irgen.SchemaSpec, t irgen.Term) {
-		spec.Pkgs[0].Objects = append(spec.Pkgs[0].Objects, cycleSupport()...)
+		// the cyclic / dangling support objects are only present when referenced
+		// (a cycle anywhere in the package would mask everything else)
+		used := map[string]bool{}
+		need(t, used)
+		for _, o := range cycleSupport() {
+			if used[o.Name] {
+				spec.Pkgs[0].Objects = append(spec.Pkgs[0].Objects, o)
+			}
+		}
 		spec.Name = place + ":" + t.String()
 		out = append(out, irInput{ID: spec.Name, Spec: spec, Size: t.Size()*4 + len(place)})
 	}
@@ -185,15 +220,25 @@ func irSpace(thorough bool) []irInput {
 	return out
 }
 
-// irStages: every user pass (through the YAML loader), the builder generator, every language.
+// irStages: every user pass (through the YAML loader; one request runs them
+// all, each on a fresh IR under its own recover), the builder generator, every language.
 func irStages() []string {
+	out := []string{"passes", "builders"}
+	for _, l := range allLanguages {
+		out = append(out, "lang:"+l)
+	}
+	return out
+}
+
+// splitStage lists the single-stage requests a grouped stage is made of (used
+// when a grouped request kills the worker: the stages are then run one by one).
+func splitStage(stage string) []string {
+	if stage != "passes" {
+		return nil
+	}
 	var out []string
 	for _, t := range passTemplates {
 		out = append(out, "pass:"+t.Name)
-	}
-	out = append(out, "builders")
-	for _, l := range allLanguages {
-		out = append(out, "lang:"+l)
 	}
 	return out
 }
